@@ -66,8 +66,8 @@ struct RZMapFieldParamsData
     {
         CELER_EXPECT(grids.data_z);
         CELER_EXPECT(grids.data_r);
-        return (z >= grids.data_z.front && z <= grids.data_z.back
-                && r >= grids.data_r.front && r <= grids.data_r.back);
+        return (z >= grids.data_z.front && z < grids.data_z.back
+                && r >= grids.data_r.front && r < grids.data_r.back);
     }
 
     inline CELER_FUNCTION ElementId id(size_type idx_z, size_type idx_r) const
